@@ -139,7 +139,15 @@ class C01:
                         out.append(V("C01", "attestation-credited-another-account",
                                      f"attestation for the claim of {v['prover']} refreshed the proof deadline of {key[0]} instead"))
                     else:
-                        self.proven.add(key)
+                        form = {pk(kk): f for kk, f in pre["attests"]}.get(target)
+                        named = form is not None and any(a == v["creator"] for a, _ in form["attestations"])
+                        done = ({a for a, c in form["attestations"] if c} | {v["creator"]}) if named else set()
+                        if not named or len(done) < pre["params"]["attestMinToPass"]:
+                            out.append(V("C01", "deadline-refreshed-without-quorum",
+                                         f"attest signed by {v['creator']} refreshed the proof deadline of {key[0]} without a completed quorum of the providers named on its form "
+                                         f"({'not named on the form' if not named else str(len(done)) + ' signatures'}, minimum {pre['params']['attestMinToPass']})"))
+                        else:
+                            self.proven.add(key)
         # prover status appears only through a successful PostProof by that account
         for key, f in f1.items():
             before = set(pk(x) for x in f0[key]["proofs"]) if key in f0 else set()
@@ -540,6 +548,9 @@ class C12:
         g0, g1 = dict(pre["gauges"]), dict(post["gauges"])
         accs = {g["account"]: g for g in list(g0.values()) + list(g1.values())}
         if rec["op"] != "block":
+            for gid in set(g0) & set(g1):
+                if (g0[gid]["startT"], g0[gid]["endT"]) != (g1[gid]["startT"], g1[gid]["endT"]):
+                    out.append(V("C12", "gauge-interval-changed", f"a message moved gauge {gid[:8]} from [{g0[gid]['startT']},{g0[gid]['endT']}] to [{g1[gid]['startT']},{g1[gid]['endT']}]: what was deposited before is no longer streamed over its own duration"))
             for acc in accs:
                 for (a, d) in set(b0) | set(b1):
                     if a != acc:
